@@ -150,4 +150,38 @@ theorem cfgOrdered_hurs : CfgOrdered hursCfg where
     injection h1 with h1; injection h2 with h2
     rw [← h1, ← h2]; norm_num
 
+/-! ### event likelihood adjustment (known finding F22): the tas-like configuration with the option on, rational
+    stand-ins for `scipy.special.logit` / `expit` / `np.log(10)`, and evaluation helpers (`List.mergeSort` is defined by
+    well-founded recursion and does not reduce in the kernel; on sorted input every sort of the model is the identity) -/
+
+/-- `ISIMIP.from_variable("tas", event_likelihood_adjustment=True)`-like: `tasCfg` with the option on -/
+def elaCfg : Cfg := { tasCfg with eventLikelihoodAdjustment := true }
+
+/-- rational doubles of the three oracles of the adjustment: `logit := G⁻¹`, `expit := G` of the rational sigmoid
+    (strictly increasing, mutually inverse: `ratSigmoid_laws`), `np.log(10) ≈ 23/10` -/
+def elaOracles : Oracles := { logit := sigGinv, expit := sigG, log10 := 23 / 10 }
+
+theorem isiLaws_ela : IsiLaws elaCfg Model.Isimip.ratSigmoid := by
+  apply isiLaws_locScale elaCfg Model.Family.ratSigmoid Lemmas.Family.ratSigmoid_laws meanAbsDevAt meanAbsDevAt_nonneg
+  · intro fl s h
+    have : fixedArgs elaCfg = .ok (none, none) := by decide +kernel
+    rw [this] at h
+    injection h with h
+    simp at h
+  · rfl
+  · rfl
+
+theorem sortQ_of_sorted_ela {l : List Rat} (h : l.Pairwise (· ≤ ·)) : sortQ l = l := by
+  unfold sortQ
+  exact List.mergeSort_of_pairwise (h.imp (fun h => by simpa using h))
+
+theorem argsort_of_sorted_ela {l : List Rat} (h : l.Pairwise (· ≤ ·)) : argsort l = List.range l.length := by
+  unfold argsort
+  have h1 : ((l.zip (List.range l.length)).map Prod.fst).Pairwise (· ≤ ·) := by
+    rw [List.map_fst_zip (by simp)]; exact h
+  rw [List.pairwise_map] at h1
+  have hp : (l.zip (List.range l.length)).Pairwise (fun a b => (decide (a.1 ≤ b.1)) = true) :=
+    h1.imp (fun h => by simpa using h)
+  rw [List.mergeSort_of_pairwise hp, List.map_snd_zip (by simp)]
+
 end Lemmas.C09
